@@ -39,10 +39,21 @@ func (e *Engine) fnKey(fn *ssa.Function) string {
 }
 
 func (e *Engine) contractFor(fn *ssa.Function) *Contract {
-	if c, ok := e.Contracts[e.fnKey(fn)]; ok {
-		return c
+	return e.contractByKey(e.fnKey(fn))
+}
+
+// contractByKey looks a contract up for use at a call site. An assumed (trusted) contract
+// that names properties is an assumption made for those properties only: it is not applied
+// while another property is being checked.
+func (e *Engine) contractByKey(key string) *Contract {
+	c, ok := e.Contracts[key]
+	if !ok {
+		return nil
 	}
-	return nil
+	if c.Trusted && len(c.Props) > 0 && e.CurProp != "" && !hasProp(c.Props, e.CurProp) {
+		return nil
+	}
+	return c
 }
 
 // scalarOnlyExternal: an external function whose parameters and results hold no
@@ -115,7 +126,7 @@ func (x *Exec) callCommon(fr *frame, s *State, c *ssa.CallCommon, fnv Value, arg
 		key := x.E.invokeKey(c)
 		x.atCallCheck(fr, s, key, append([]Value{fnv}, args...))
 		x.nilCheckIface(fr, s, fnv, pos)
-		if ct := x.E.Contracts[key]; ct != nil {
+		if ct := x.E.contractByKey(key); ct != nil {
 			ct.Used = true
 			return x.applyContract(fr, s, ct, nil, c.Method.Name(), append([]Value{fnv}, args...), invokeParamNames(c), sig, pos)
 		}
@@ -138,7 +149,7 @@ func (x *Exec) callCommon(fr *frame, s *State, c *ssa.CallCommon, fnv Value, arg
 			if a, ok := u.X.(*ssa.Alloc); ok && a.Comment != "" {
 				key := "localfn " + a.Comment
 				x.atCallCheck(fr, s, key, args)
-				if ct := x.E.Contracts[key]; ct != nil {
+				if ct := x.E.contractByKey(key); ct != nil {
 					ct.Used = true
 					var names []string
 					for i := 0; i < sig.Params().Len(); i++ {
@@ -150,7 +161,7 @@ func (x *Exec) callCommon(fr *frame, s *State, c *ssa.CallCommon, fnv Value, arg
 		}
 		// a call through a value of a named function type may have an assumed contract
 		if n, ok := c.Value.Type().(*types.Named); ok {
-			if ct := x.E.Contracts["functype "+n.Obj().Name()]; ct != nil {
+			if ct := x.E.contractByKey("functype " + n.Obj().Name()); ct != nil {
 				ct.Used = true
 				var names []string
 				for i := 0; i < sig.Params().Len(); i++ {
